@@ -319,4 +319,23 @@ example : ∃ down dbO dbN, modelDown {} C01.exOldW C01.exNewW = .ok down ∧ ex
     execAll true [] C01.exNewW = some dbN ∧ (c02 false dbO dbN down false).toOption = some () :=
   ⟨_, _, _, by rfl, by rfl, by rfl, by decide⟩
 
+/-- the same for either setting of the ignore-field-order option (`Spec.c02` compares up to column order under the option) -/
+theorem schema_on_reference_engine_either_setting (g : Globals) (hg : g.dialect = .mysql) (rc : Bool)
+    (old new : List Stmt) (dbO dbN : DB) (ho : old.all Stmt.elemSafe = true) (hn : new.all Stmt.elemSafe = true)
+    (hpo : old.all Stmt.plainOpts = true) (hpn : new.all Stmt.plainOpts = true)
+    (heo : execAll rc [] old = some dbO) (hen : execAll rc [] new = some dbN)
+    (hdef : ∀ tb ∈ dbO ++ dbN, tb.name ≠ Migration.defaultMigrationTable)
+    (hnofk : ∀ tb ∈ dbO ++ dbN, tb.fks = [])
+    (hncm : ∀ tb ∈ dbO ++ dbN, ∀ c ∈ tb.cols, ∀ k ∈ c.opts, k.noComment = true)
+    (hboth : ∀ tbO ∈ dbO, ∀ tbN ∈ dbN, tbO.name = tbN.name →
+      Abs.OrderCompatible tbN.colNames tbO.colNames ∧ (∀ n ∈ tbN.colNames ++ tbO.colNames, n ≠ "") ∧ tbO.pk = tbN.pk ∧
+      (∀ dc : List String, (∀ c ∈ dc, c ∉ tbO.colNames) →
+        ∀ s ∈ tbN.idxs, ∀ o ∈ tbO.idxs, o.name = s.name → o ≠ s → ∃ c ∈ s.cols, c ∉ dc)) :
+    ∃ down, modelDown g old new = .ok down ∧ c02 g.ignoreOrder dbO dbN down false = .ok () :=
+  schema_down_any g hg rc old new dbO dbN ho hn hpo hpn heo hen hdef hnofk hncm hboth
+
+example : ∃ down dbO dbN, modelDown { ignoreOrder := true } C01.exOldW C01.exNewW = .ok down ∧ execAll true [] C01.exOldW = some dbO ∧
+    execAll true [] C01.exNewW = some dbN ∧ (c02 true dbO dbN down false).toOption = some () :=
+  ⟨_, _, _, by rfl, by rfl, by rfl, by decide⟩
+
 end Sqlize.C02
